@@ -30,9 +30,11 @@ SLICINGS = [[0, 16], [0, 16, 32], [0, 16, 48], [0, 8, 24, 40], [0, 32, 40], [0, 
 def ENCODED():
     import ethosu.vela.weight_compressor as wc
     import ethosu.vela.high_level_command_to_npu_op as h2n
+    import ethosu.vela.npu_performance  # noqa (import cycle)
+    import ethosu.vela.scheduler as sch
 
     return [wc.encode_weight_and_scale_tensor, wc.encode_bias, wc.core_deinterleave, wc.create_weight_compression_config,
-            h2n.create_weights, h2n.create_dma_op]
+            h2n.create_weights, h2n.create_dma_op, sch.Scheduler.propose_weight_buffering]
 
 
 class _Stream:
@@ -347,7 +349,111 @@ def weight_ranges(V, accel, buffered, standalone):
     return cl
 
 
-FUNCS = {"weight_ranges": weight_ranges, "codec_args": codec_args, "encode": encode, "cache": cache, "bias": bias, "bias_rejects": bias_rejects}
+class _WT:
+    """stand-in for the NpuWeightTensor returned by the (stubbed) encoder: symbolic slice sizes, the bookkeeping the encoder lemma establishes"""
+
+    def __init__(self, name, slices, sizes):
+        import ethosu.vela.weight_compressor as wc
+
+        self.name = name
+        self.slices = list(slices)
+        self.sizes = sizes
+        self.encoded_ranges = {wc.WeightKey(0, d): i for i, d in enumerate(slices[:-1])}
+        tot = 0
+        for z in sizes:
+            tot = tot + z
+        self.buffer = _Stream(tot) if any(isinstance(z, SInt) for z in sizes) else bytearray(int(tot))
+        even = [z for i, z in enumerate(sizes) if i % 2 == 0]
+        odd = [z for i, z in enumerate(sizes) if i % 2 == 1]
+        self.double_buffer_sizes = [core.smax(even) if len(even) > 1 else even[0], (core.smax(odd) if len(odd) > 1 else odd[0]) if odd else 0]
+
+    def max_range_bytes(self):
+        return core.smax(self.double_buffer_sizes)
+
+    def double_buffer_size(self):
+        return self.double_buffer_sizes[0] + self.double_buffer_sizes[1]
+
+
+def buffering(V, limit, standalone_scales, cascade):
+    """Scheduler.propose_weight_buffering with the encoder stubbed (each call returns a tensor with SYMBOLIC per-slice byte counts and the
+    double_buffer_sizes the encoder lemma guarantees): whatever the method decides - double buffer, single buffer, or no buffering - (1) every
+    depth slice fits the SRAM buffer the command generator will DMA it into (slice i goes to buffer i mod #buffers), (2) the weight tensor
+    and the scale tensor recorded for the operator describe exactly the recorded depth slices."""
+    import ethosu.vela.npu_performance  # noqa
+    import ethosu.vela.scheduler as sch
+    from ethosu.vela.operation import Op
+    from ethosu.vela.tensor import MemArea, TensorSubPurpose
+    from harness.c04 import arch_for
+
+    arch = arch_for("Ethos_U55_128")
+    depth = 64
+    calls = []
+
+    def fake_encode(arch_, op_, wt_, st_, kernel_, bc_, slices):
+        k = len(calls)
+        n = len(slices) - 1
+        if k == 0:
+            sizes = [4096]
+        else:
+            sizes = [V.int("bytes_call%d_slice%d" % (k, i), 16, 1 << 16) for i in range(n)]
+            for z in sizes:
+                V.assume(L(z) % 16 == 0)
+        w = _WT("w%d" % k, slices, sizes)
+        sc = _WT("s%d" % k, slices, [16] * n) if standalone_scales else None
+        calls.append((list(slices), w, sc))
+        return w, sc
+
+    bufs = []
+
+    def buffer_tensor(src, purpose, size, name):
+        t = _Obj(src_tensor=src, sub_purpose=purpose, size=size, name=name, pre_buffer=False)
+        bufs.append(t)
+        return t
+
+    sched_op = _Obj(parent_op=None, kernel=None, op_type=Op.Conv2DBias, name="op")
+    cost = _Obj(block_config=_Obj(ofm_block=_Obj(depth=16)), ofm_depth_slices=None, npu_weights_tensor=None, npu_scales_tensor=None, buffered_weight_tensors=[],
+                slack_buffering_cycles=0, slack_buffering_memory=1 << 20, full_weight_transfer_cycles=0)
+    prev_cost = _Obj(slack_buffering_cycles=250, slack_buffering_memory=1 << 16)
+    prev_op = _Obj(name="prev")
+    ref_cost = _Obj(stripe=_Obj(depth=depth), cascade=cascade, time_index=0)
+    me = _Obj(arch=_Obj(fast_storage_mem_area=MemArea.Sram), weights_needs_dma=lambda t: True, buffer_tensor=buffer_tensor,
+              estimate_op_performance=lambda op, bc, d: _Obj(op_cycles=10 * d))
+    saved = (sch.weight_compressor.encode_weight_and_scale_tensor, sch.npu_performance.measure_mem2mem_cycles)
+    sch.weight_compressor.encode_weight_and_scale_tensor = fake_encode
+    sch.npu_performance.measure_mem2mem_cycles = lambda *a: 1000
+    try:
+        with core.shims((sch, {"len": _slen, "min": core.smin, "max": core.smax})):
+            sch.Scheduler.propose_weight_buffering(me, _Obj(name="w", mem_area=MemArea.Dram), _Obj(name="b"), sched_op, prev_op,
+                                                   _Obj(cost_map={sched_op: cost, prev_op: prev_cost}), _Obj(cost_map={sched_op: ref_cost}, memory_snapshot=[0]),
+                                                   limit)
+    finally:
+        sch.weight_compressor.encode_weight_and_scale_tensor, sch.npu_performance.measure_mem2mem_cycles = saved
+    w = cost.npu_weights_tensor
+    slices = cost.ofm_depth_slices
+    cl = [("a weight tensor and depth slices are recorded", w is not None and slices is not None and slices[0] == 0 and slices[-1] == depth)]
+    if w is None or slices is None:
+        return cl
+    cl.append(("the recorded weight tensor was encoded for the recorded depth slices", w.slices == list(slices)))
+    if standalone_scales:
+        sc = cost.npu_scales_tensor
+        cl.append(("the recorded stand-alone scale tensor was encoded for the recorded depth slices (one scale range per slice the command generator looks up)",
+                   sc is not None and sc.slices == list(slices)))
+    nb = len(cost.buffered_weight_tensors)
+    cl.append(("at most two SRAM weight buffers", nb <= 2 and cost.buffered_weight_tensors == bufs[-nb:] if nb else True))
+    if nb:
+        for i, z in enumerate(w.sizes):
+            b = cost.buffered_weight_tensors[i % nb]
+            cl.append(("depth slice %d (of %d) fits the SRAM buffer it is DMA-ed into (buffer %d of %d)" % (i, len(w.sizes), i % nb, nb), L(z) <= L(b.size)))
+            cl.append(("buffer %d belongs to the recorded weight tensor" % (i % nb), b.src_tensor is w))
+        tot = 0
+        for b in cost.buffered_weight_tensors:
+            tot = tot + b.size
+        if cascade == 0:
+            cl.append(("the SRAM buffers respect the buffering limit", L(tot) <= limit))
+    return cl
+
+
+FUNCS = {"buffering": buffering, "weight_ranges": weight_ranges, "codec_args": codec_args, "encode": encode, "cache": cache, "bias": bias, "bias_rejects": bias_rejects}
 
 
 def instances(tier, seed):
@@ -371,6 +477,11 @@ def instances(tier, seed):
             for standalone in (0, 1):
                 out.append(dict(key="weight_ranges/%s/buffered%d_standalone%d" % (accel, buffered, standalone), fn="weight_ranges",
                                 params=dict(accel=accel, buffered=buffered, standalone=standalone)))
+    for limit in (256, 1024, 1296, 2048, 4096, 1 << 16):
+        for standalone in (0, 1):
+            for cascade in (0, 1):
+                out.append(dict(key="buffering/limit%d/standalone%d/cascade%d" % (limit, standalone, cascade), fn="buffering",
+                                params=dict(limit=limit, standalone_scales=standalone, cascade=cascade)))
     out.append(dict(key="bias/pack", fn="bias", params={}))
     for w in ("bias_hi", "bias_lo", "scale", "shift", "neg_scale"):
         out.append(dict(key="bias_rejects/%s" % w, fn="bias_rejects", params=dict(which=w)))
